@@ -1084,3 +1084,66 @@ Proof.
   split. { intros i Hi. destruct i as [|[|i]]; [vm_compute; reflexivity|vm_compute; reflexivity|lia]. }
   vm_compute. discriminate.
 Qed.
+
+(* ------------------------------------------------------------------ the remembered K and its key change together *)
+
+(* what the cache decision of the NEXT call reads: the remembered K together with the T, z and chemicals it belongs to *)
+Definition cache_key (st : lle_st) : option vec * Q * vec * option (list nat) := (sK st, sT st, sz st, schems st).
+
+(* the remembered K of a state is the one computed from the split (l', L') *)
+Definition fresh_key (st' : lle_st) (T : Q) (z : vec) (index : list nat) : Prop :=
+  sT st' = T /\ sz st' = z /\ schems st' = Some index /\
+  exists l' L', sK st' = Some (fst (stored_K_phi l' L')) /\ sphi st' = Some (snd (stored_K_phi l' L')).
+
+Lemma finish_fresh E st s1 index F z a ml mL st' s' r :
+  finish E st s1 index F z a ml mL = (st', s', r) -> fresh_key st' (aT a) z index.
+Proof.
+  unfold finish. destruct (swap_top E index (atop a) ml mL) as [l L].
+  destruct (stored_K_phi l L) as [K' phi'] eqn:SK.
+  destruct (aupdate a); intros H; inversion H; subst; unfold fresh_key; simpl;
+    repeat split; auto; exists l, L; rewrite SK; auto.
+Qed.
+
+(* every call, with or without update, with or without reuse, raising or not: either K and its key are all left as they
+   were, or all of them are replaced by the values of THIS call (its T, its normalised feed, its chemicals, the K of its split) *)
+Theorem key_consistent_lemma : forall E o st s a st' s' t s1 index mol F z,
+  lle_call E o st s a = (st', s', t) ->
+  call_data E s a = (s1, index, mol, F, z) ->
+  cache_key st' = cache_key st \/ fresh_key st' (aT a) z index.
+Proof.
+  intros E o st s a st' s' t s1 index mol F z HC HD.
+  unfold call_data in HD. unfold lle_call in HC.
+  destruct (liquid_data E (set_TP s a)) as [[s1' index'] mol'] eqn:LD.
+  inversion HD; subst s1' index' F z. clear HD. subst mol'.
+  destruct (nonzerob (rsum mol) && Nat.ltb 1 (length index)).
+  - destruct (use_cache_expr _ _ _ _ _ _ _ _).
+    + destruct (sK st) as [K|] eqn:SK; [|inversion HC; subst; left; reflexivity].
+      destruct (phase_fraction _ _ K) as [phi|e]; [|inversion HC; subst; left; reflexivity].
+      destruct (cached_split _ K _) as [[ml mL]|e].
+      * match type of HC with context [finish ?e ?x ?y ?i ?f ?zz ?aa ?l ?L] =>
+          destruct (finish e x y i f zz aa l L) as [[st2 s2] r] eqn:FN end.
+        inversion HC; subst. right. eapply finish_fresh; eauto.
+      * inversion HC; subst. left. unfold cache_key, with_phi; simpl. rewrite SK. reflexivity.
+    + match type of HC with context [finish ?e ?x ?y ?i ?f ?zz ?aa ?l ?L] =>
+        destruct (finish e x y i f zz aa l L) as [[st2 s2] r] eqn:FN end.
+      inversion HC; subst. right. eapply finish_fresh; eauto.
+  - destruct (negb (aupdate a)).
+    + match type of HC with context [if ?c then _ else _] => destruct c end; inversion HC; subst; left; reflexivity.
+    + inversion HC; subst; left; reflexivity.
+Qed.
+
+(* and the reuse decision of a call reads exactly that key *)
+Theorem reuse_only_of_latest_lemma : forall E o st1 s a st2 s2 t sA index mol F z T1 z1 idx1,
+  fresh_key st1 T1 z1 idx1 ->
+  lle_call E o st1 s a = (st2, s2, t) ->
+  call_data E s a = (sA, index, mol, F, z) ->
+  t_used_cache t = true ->
+  index = idx1 /\ Qabs (aT a - T1) < tolT st1 /\
+  (forall i, (i < length z1)%nat -> (i < length z)%nat -> Qabs (nthq z1 i - nthq z i) < tolz st1) /\
+  exists l' L', sK st1 = Some (fst (stored_K_phi l' L')).
+Proof.
+  intros E o st1 s a st2 s2 t sA index mol F z T1 z1 idx1 (FT & FZ & FC & l' & L' & FK & _) HC HD HU.
+  destruct (use_cache_sound_lemma _ _ _ _ _ _ _ _ _ _ _ _ _ HC HD HU) as (_ & SC & TT & ZZ & _).
+  rewrite FC in SC. inversion SC; subst idx1. rewrite FT in TT. rewrite FZ in ZZ.
+  repeat split; auto. eauto.
+Qed.
